@@ -20,7 +20,7 @@ RULE = ('kind binop: two conforming files (same dimensions/variables, float64 or
         'missing on the right) x the 13 operators + - * / // ** % < <= > >= == !=; kind mask: every subset of '
         'where (by dims or by shape) / greater / greater_equal / less / less_equal / equal, coords on/off, already '
         'masked cells; kind eval: assignments of expressions (+ - * / unary -, literals) over 1-3 variables of one '
-        'shape, into a new variable or (inplace) onto an existing variable of another type / maskedness; divisors incl. tiny non-zero values (2^-27 .. 2^-40); non-trivial = a masked or zero-divisor cell is involved, or two predicates are combined')
+        'shape, into a new variable or (inplace) onto an existing variable of another type / maskedness; divisors incl. tiny non-zero values (2^-27 .. 2^-40); non-trivial = a masked or zero-divisor cell is involved, or two predicates are combined; half-integer bounds also on integer variables; eval on files with a global attribute named like a variable of the expression; kind chain: two operations in a row (arithmetic with a second / third file, mask) on files with declared coordinates, judged by numpy.ma and \'coordinates pass through from the left operand\'')
 ASSUMPTIONS = ['float64 results are compared with exact rationals within 1e-12 relative',
                'results of file arithmetic take the dtype numpy gives the expression (not the declared dtype)',
                'coordinate variables are the variables declared with setCoords()']
